@@ -298,6 +298,11 @@ func (g *Gen) callFuncValue(e *Ev, fv Term, sig *types.Signature, args []Term, n
 		}
 		e.checkCallsite(key, n, bind)
 	}
+	if len(actuals) < len(pnames) && len(actuals) >= 1 {
+		// a functype block may serve function values of several arities: the names beyond the
+		// actual arguments stay unbound
+		pnames = pnames[:len(actuals)]
+	}
 	if len(pnames) != len(actuals) {
 		return e.errorf(n, "functype %s: %d names for %d actuals", hdr, len(pnames), len(actuals))
 	}
